@@ -12,6 +12,7 @@ import (
 
 var (
 	ErrUnknownKeyType = errors.New("unknown key type")
+	ErrMalformedIndex = errors.New("malformed index")
 )
 
 type indexedField struct {
@@ -37,9 +38,18 @@ func (f *indexedField) UnmarshalJSON(data []byte) error {
 	if err = dec.Decode(&tuple); err != nil {
 		return err
 	}
+	if len(tuple) != 2 {
+		return fmt.Errorf("%w: expecting a [value, object id] tuple", ErrMalformedIndex)
+	}
 	f.Value = tuple[0]
-	f.ObjectId, err = strconv.ParseUint(tuple[1].(json.Number).String(), 10, 64)
-	return err
+	id, ok := tuple[1].(json.Number)
+	if !ok {
+		return fmt.Errorf("%w: object id must be a number", ErrMalformedIndex)
+	}
+	if f.ObjectId, err = strconv.ParseUint(id.String(), 10, 64); err != nil {
+		return fmt.Errorf("%w: %s", ErrMalformedIndex, err)
+	}
+	return nil
 }
 
 func (f *indexedField) String() string {
@@ -82,32 +92,40 @@ func newIndexedField(value interface{}, objid uint64) (*indexedField, error) {
 	return &indexedField{value, objid}, err
 }
 
-func (f *indexedField) valueTypeFromString(t string) {
+func (f *indexedField) valueTypeFromString(t string) (err error) {
+	var n json.Number
+	var ok bool
+
 	// numbers are unmarshaled as json.Number so that
 	// 64 bits integers do not lose precision
 	switch t {
-	case "float64":
-		v, err := f.Value.(json.Number).Float64()
-		if err != nil {
-			panic(err)
+	case "float64", "int64", "uint64":
+		if n, ok = f.Value.(json.Number); !ok {
+			return fmt.Errorf("%w: cannot cast %T to %s", ErrMalformedIndex, f.Value, t)
 		}
-		f.Value = v
-	case "int64":
-		v, err := strconv.ParseInt(f.Value.(json.Number).String(), 10, 64)
-		if err != nil {
-			panic(err)
-		}
-		f.Value = v
-	case "uint64":
-		v, err := strconv.ParseUint(f.Value.(json.Number).String(), 10, 64)
-		if err != nil {
-			panic(err)
-		}
-		f.Value = v
 	case "string":
+		if _, ok = f.Value.(string); !ok {
+			return fmt.Errorf("%w: cannot cast %T to %s", ErrMalformedIndex, f.Value, t)
+		}
+		return
 	default:
-		panic(fmt.Errorf("%w %s", ErrUnknownKeyType, t))
+		return fmt.Errorf("%w %s", ErrUnknownKeyType, t)
 	}
+
+	switch t {
+	case "float64":
+		f.Value, err = n.Float64()
+	case "int64":
+		f.Value, err = strconv.ParseInt(n.String(), 10, 64)
+	case "uint64":
+		f.Value, err = strconv.ParseUint(n.String(), 10, 64)
+	}
+
+	if err != nil {
+		err = fmt.Errorf("%w: %s", ErrMalformedIndex, err)
+	}
+
+	return
 }
 
 func (f *indexedField) valueTypeString() string {
